@@ -26,10 +26,13 @@ open PrologVerif PrologVerif.DB PrologVerif.Driver
 
 structure Machine (σ : Type) where
   step : σ → Op → σ × Out
+  /-- retractall/1 — bootstrap.pl: `retractall(Head) :- retract((Head :- _)), fail.  retractall(_).` —
+      as defined next to the machine (`DB.retractall`, `LUV.retractall`) -/
+  retractall : σ → Term → σ × Out
 
-def modelMachine : Machine DB.State := ⟨DB.step .fixed⟩
-def pinnedMachine : Machine DB.State := ⟨DB.step .pinned⟩
-def specMachine : Machine LUV.State := ⟨LUV.step⟩
+def modelMachine : Machine DB.State := ⟨DB.step .fixed, DB.retractall .fixed 100000⟩
+def pinnedMachine : Machine DB.State := ⟨DB.step .pinned, DB.retractall .pinned 100000⟩
+def specMachine : Machine LUV.State := ⟨LUV.step, LUV.retractall 100000⟩
 
 /-! initial database of every case (the harness consults the same):
       :- dynamic(p/1).   s(1). s(2).
@@ -67,24 +70,6 @@ def showListing (M : Machine σ) (st : σ) : String :=
       head ++ (if dyn then "D" else "S") ++ bracket (cs.map fun c => (rulify c).canon.wire)
     | _ => head ++ "?")
 
-/-! ### retractall/1 — bootstrap.pl:  retractall(Head) :- retract((Head :- _)), fail.  retractall(_). -/
-
-def drain (M : Machine σ) : Nat → σ → Nat → σ × Option Out
-  | 0, st, _ => (st, some .badHandle)
-  | fuel + 1, st, h =>
-    match M.step st (.next h) with
-    | (st', .answer _) => drain M fuel st' h
-    | (st', .no) => (st', none)
-    | (st', o) => (st', some o)
-
-def retractall (M : Machine σ) (st : σ) (head : Term) : σ × Out :=
-  match M.step st (.openRetract (.a2 ":-" head (.var (maxVar head)))) with
-  | (st1, .opened h) =>
-    match drain M 100000 st1 h with
-    | (st2, none) => (st2, .ok)
-    | (st2, some o) => (st2, o)
-  | (st1, o) => (st1, o)
-
 /-! ### nested goals: depth-first, left-to-right execution of a conjunction over a machine -/
 
 inductive Goal where
@@ -108,7 +93,7 @@ mutual
       | .asserta t => oneShot M fuel rest s (M.step st (.asserta (resolve bigFuel s t)))
       | .assertz t => oneShot M fuel rest s (M.step st (.assertz (resolve bigFuel s t)))
       | .abolish t => oneShot M fuel rest s (M.step st (.abolish (resolve bigFuel s t)))
-      | .retractall t => oneShot M fuel rest s (retractall M st (resolve bigFuel s t))
+      | .retractall t => oneShot M fuel rest s (M.retractall st (resolve bigFuel s t))
       | .call t =>
         let g := resolve bigFuel s t
         match M.step st (.openCall g) with
@@ -188,7 +173,7 @@ def command (M : Machine σ) (r : Run σ) (cmd : String) : Run σ :=
     | _ => emit r.st "BAD-CMD"
   | "ra" =>
     match parseTerms rest with
-    | some [t] => let (st, o) := retractall M r.st t; emit st (showOut o)
+    | some [t] => let (st, o) := M.retractall r.st t; emit st (showOut o)
     | _ => emit r.st "BAD-CMD"
   | "oc" | "or" =>
     let (k, rest') := headWord rest
